@@ -34,6 +34,7 @@ From Coq Require Import ZArith List String Bool.
 From Pnc Require Import Gen_consts Gen_collsites.
 Import ListNotations.
 Local Open Scope Z_scope.
+Local Open Scope list_scope.
 
 Inductive mpicall : Set :=
 | C_Allreduce | C_Bcast | C_Barrier | C_Comm_dup | C_Comm_free | C_Gather | C_Gatherv
@@ -778,3 +779,901 @@ Definition site_ord (s : site) : nat :=
   | S_write_NC_WAA2 => 2
   end.
 
+Definition site_idx (s : site) : nat :=
+  match s with
+  | S_NC_begins_AR1 => 0
+  | S_NC_begins_BC1 => 1
+  | S_allreduce_error_AR1 => 2
+  | S_check_consistency_put_AR1 => 3
+  | S_check_consistency_put_AR2 => 4
+  | S_check_consistency_put_BC1 => 5
+  | S_check_consistency_put_BC2 => 6
+  | S_check_consistency_put_BC3 => 7
+  | S_check_consistency_put_BC4 => 8
+  | S_check_consistency_put_BC5 => 9
+  | S_check_consistency_put_BC6 => 10
+  | S_fill_var_rec_AR1 => 11
+  | S_fill_var_rec_SV1 => 12
+  | S_fill_var_rec_WAA1 => 13
+  | S_fillerup_aggregate_SV1 => 14
+  | S_fillerup_aggregate_SV2 => 15
+  | S_fillerup_aggregate_WAA1 => 16
+  | S_getput_vard_AR1 => 17
+  | S_hdr_fetch_BC1 => 18
+  | S_hdr_fetch_BC2 => 19
+  | S_hdr_fetch_RAA1 => 20
+  | S_hdr_fetch_RAA2 => 21
+  | S_move_file_block_AR1 => 22
+  | S_move_file_block_AR2 => 23
+  | S_move_file_block_RAA1 => 24
+  | S_move_file_block_SV1 => 25
+  | S_move_file_block_WAA1 => 26
+  | S_ncmpi__enddef_AR1 => 27
+  | S_ncmpi__enddef_AR2 => 28
+  | S_ncmpi__enddef_BC1 => 29
+  | S_ncmpi_abort_CFREE1 => 30
+  | S_ncmpi_close_CFREE1 => 31
+  | S_ncmpi_copy_att_AR1 => 32
+  | S_ncmpi_copy_att_AR2 => 33
+  | S_ncmpi_copy_att_BC1 => 34
+  | S_ncmpi_copy_att_BC2 => 35
+  | S_ncmpi_copy_att_BC3 => 36
+  | S_ncmpi_create_AR1 => 37
+  | S_ncmpi_create_BC1 => 38
+  | S_ncmpi_create_DUP1 => 39
+  | S_ncmpi_create_CFREE1 => 40
+  | S_ncmpi_create_CFREE2 => 41
+  | S_ncmpi_def_dim_AR1 => 42
+  | S_ncmpi_def_dim_AR2 => 43
+  | S_ncmpi_def_dim_BC1 => 44
+  | S_ncmpi_def_dim_BC2 => 45
+  | S_ncmpi_def_dim_BC3 => 46
+  | S_ncmpi_def_var_AR1 => 47
+  | S_ncmpi_def_var_AR2 => 48
+  | S_ncmpi_def_var_BC1 => 49
+  | S_ncmpi_def_var_BC2 => 50
+  | S_ncmpi_def_var_BC3 => 51
+  | S_ncmpi_def_var_BC4 => 52
+  | S_ncmpi_def_var_BC5 => 53
+  | S_ncmpi_def_var_fill_AR1 => 54
+  | S_ncmpi_del_att_AR1 => 55
+  | S_ncmpi_del_att_AR2 => 56
+  | S_ncmpi_del_att_BC1 => 57
+  | S_ncmpi_del_att_BC2 => 58
+  | S_ncmpi_del_att_BC3 => 59
+  | S_ncmpi_enddef_AR1 => 60
+  | S_ncmpi_fill_var_rec_AR1 => 61
+  | S_ncmpi_open_AR1 => 62
+  | S_ncmpi_open_BC1 => 63
+  | S_ncmpi_open_DUP1 => 64
+  | S_ncmpi_open_CFREE1 => 65
+  | S_ncmpi_open_CFREE2 => 66
+  | S_ncmpi_open_CFREE3 => 67
+  | S_ncmpi_rename_att_AR1 => 68
+  | S_ncmpi_rename_att_AR2 => 69
+  | S_ncmpi_rename_att_BC1 => 70
+  | S_ncmpi_rename_att_BC2 => 71
+  | S_ncmpi_rename_att_BC3 => 72
+  | S_ncmpi_rename_att_BC4 => 73
+  | S_ncmpi_rename_att_BC5 => 74
+  | S_ncmpi_rename_dim_AR1 => 75
+  | S_ncmpi_rename_dim_AR2 => 76
+  | S_ncmpi_rename_dim_BC1 => 77
+  | S_ncmpi_rename_dim_BC2 => 78
+  | S_ncmpi_rename_dim_BC3 => 79
+  | S_ncmpi_rename_var_AR1 => 80
+  | S_ncmpi_rename_var_AR2 => 81
+  | S_ncmpi_rename_var_BC1 => 82
+  | S_ncmpi_rename_var_BC2 => 83
+  | S_ncmpi_rename_var_BC3 => 84
+  | S_ncmpio__enddef_AR1 => 85
+  | S_ncmpio__enddef_AR2 => 86
+  | S_ncmpio__enddef_AR3 => 87
+  | S_ncmpio__enddef_AR4 => 88
+  | S_ncmpio__enddef_AR5 => 89
+  | S_ncmpio__enddef_AR6 => 90
+  | S_ncmpio_begin_indep_data_FOPEN1 => 91
+  | S_ncmpio_close_BAR1 => 92
+  | S_ncmpio_close_BAR2 => 93
+  | S_ncmpio_close_files_BAR1 => 94
+  | S_ncmpio_close_files_FCLOSE1 => 95
+  | S_ncmpio_close_files_FCLOSE2 => 96
+  | S_ncmpio_copy_att_AR1 => 97
+  | S_ncmpio_create_BC1 => 98
+  | S_ncmpio_create_BC2 => 99
+  | S_ncmpio_create_FOPEN1 => 100
+  | S_ncmpio_def_var_AR1 => 101
+  | S_ncmpio_def_var_fill_AR1 => 102
+  | S_ncmpio_def_var_fill_BC1 => 103
+  | S_ncmpio_def_var_fill_BC2 => 104
+  | S_ncmpio_del_att_AR1 => 105
+  | S_ncmpio_file_set_view_SV1 => 106
+  | S_ncmpio_file_set_view_SV2 => 107
+  | S_ncmpio_file_set_view_SV3 => 108
+  | S_ncmpio_file_sync_FSYNC1 => 109
+  | S_ncmpio_file_sync_FSYNC2 => 110
+  | S_ncmpio_fill_var_rec_AR1 => 111
+  | S_ncmpio_fill_var_rec_BC1 => 112
+  | S_ncmpio_fill_var_rec_BC2 => 113
+  | S_ncmpio_getput_zero_req_RA1 => 114
+  | S_ncmpio_getput_zero_req_SV1 => 115
+  | S_ncmpio_getput_zero_req_WA1 => 116
+  | S_ncmpio_intra_node_aggr_init_BC1 => 117
+  | S_ncmpio_intra_node_aggr_init_GA1 => 118
+  | S_ncmpio_intra_node_aggr_init_GAV1 => 119
+  | S_ncmpio_intra_node_aggr_init_GAV2 => 120
+  | S_ncmpio_open_FOPEN1 => 121
+  | S_ncmpio_put_att_AR1 => 122
+  | S_ncmpio_read_write_RAA1 => 123
+  | S_ncmpio_read_write_WAA1 => 124
+  | S_ncmpio_rename_att_AR1 => 125
+  | S_ncmpio_rename_dim_AR1 => 126
+  | S_ncmpio_rename_var_AR1 => 127
+  | S_ncmpio_set_fill_AR1 => 128
+  | S_ncmpio_set_fill_BC1 => 129
+  | S_ncmpio_sync_numrecs_AR1 => 130
+  | S_ncmpio_sync_numrecs_BC1 => 131
+  | S_ncmpio_write_header_BC1 => 132
+  | S_ncmpio_write_header_WAA1 => 133
+  | S_ncmpio_write_header_WAA2 => 134
+  | S_ncmpio_write_numrecs_WAA1 => 135
+  | S_ncmpio_write_numrecs_WAA2 => 136
+  | S_put_varm_AR1 => 137
+  | S_req_commit_AR1 => 138
+  | S_write_NC_BC1 => 139
+  | S_write_NC_WAA1 => 140
+  | S_write_NC_WAA2 => 141
+  end.
+
+Definition site_info (s : site) : string * string * nat :=
+  (site_func s, call_name (site_call s), site_ord s).
+
+(* ------------------------------------------------------------------ operations and traces *)
+Inductive target : Set :=
+| TComm      (* the communicator of the file (all ranks) *)
+| TSelf      (* a communicator of size 1 *)
+| TFhColl    (* ncp->collective_fh: opened on the file's communicator *)
+| TFhSelf.   (* ncp->independent_fh or a temporary handle: opened on MPI_COMM_SELF *)
+
+Definition cop : Set := (site * target)%type.
+Definition trace : Set := list cop.
+
+(* an operation synchronises with the other ranks iff its target spans them *)
+Definition is_global (c : cop) : bool :=
+  match snd c with TComm | TFhColl => true | _ => false end.
+
+(* matching classes of MPI calls: read_all / read_at_all (write_all / write_at_all) on the same
+   handle are paired by the library by design (ncmpio_getput_zero_req) and are treated as the
+   same collective; `strict` below keeps them apart. *)
+Inductive ckind : Set :=
+| K_Allreduce | K_Bcast | K_Barrier | K_Comm_dup | K_Comm_free | K_Gather | K_Gatherv
+| K_File_open | K_File_close | K_File_set_view | K_File_sync | K_File_read_coll | K_File_write_coll.
+
+Definition kind_of (c : mpicall) : ckind :=
+  match c with
+  | C_Allreduce => K_Allreduce | C_Bcast => K_Bcast | C_Barrier => K_Barrier
+  | C_Comm_dup => K_Comm_dup | C_Comm_free => K_Comm_free | C_Gather => K_Gather
+  | C_Gatherv => K_Gatherv | C_File_open => K_File_open | C_File_close => K_File_close
+  | C_File_set_view => K_File_set_view | C_File_sync => K_File_sync
+  | C_File_read_all | C_File_read_at_all => K_File_read_coll
+  | C_File_write_all | C_File_write_at_all => K_File_write_coll
+  end.
+
+Definition nop (c : cop) : ckind * target := (kind_of (site_call (fst c)), snd c).
+Definition sop (c : cop) : mpicall * target := (site_call (fst c), snd c).
+
+(* what the other ranks can observe of a rank's trace *)
+Definition norm (t : trace) : list (ckind * target) := map nop (filter is_global t).
+Definition strict (t : trace) : list (mpicall * target) := map sop (filter is_global t).
+
+(* ------------------------------------------------------------------ configuration, shared state *)
+Record cfg : Set := mkCfg {
+  c_safe : bool;        (* PNETCDF_SAFE_MODE=1 *)
+  c_hcoll : bool;       (* hint romio_no_indep_rw=true: NC_HCOLL *)
+  c_aggr : bool;        (* intra-node aggregation in force (my_aggr >= 0) *)
+  c_dup : bool;         (* communicator is neither MPI_COMM_WORLD nor MPI_COMM_SELF: duplicated *)
+  c_nprocs : Z;
+  c_move_unit : Z       (* per-rank bytes of one data-movement round (MOVE_UNIT / hook H2) *)
+}.
+Definition multi (c : cfg) : bool := 1 <? c_nprocs c.
+
+Inductive fmode : Set := MDefine | MColl | MIndep.
+
+Record varlay : Set := mkVl { vl_isrec : bool; vl_begin : Z; vl_len : Z }.
+
+Record shared : Set := mkSh {
+  s_mode : fmode;
+  s_rdonly : bool;
+  s_isnew : bool;          (* created and never left define mode (ncp->old == NULL, NC_IsNew) *)
+  s_nvars : Z;
+  s_nrecvars : Z;
+  s_numrecs : Z;
+  s_indep_open : bool;     (* ncp->independent_fh != MPI_FILE_NULL *)
+  s_hdr_chunks : Z;        (* number of pieces the header is written / fetched in *)
+  s_fill_new : bool;       (* enddef: fillerup_aggregate has at least one segment to write (a new fixed-size variable
+                              in fill mode, or a new record variable in fill mode of a file that has records) *)
+  s_exists_err : bool;     (* create with NC_NOCLOBBER on an existing file / open: format error *)
+  s_noclobber : bool;      (* root's cmode has NC_NOCLOBBER *)
+  s_argflag : bool;        (* def_var_fill: the (agreed) arguments set a fill value (no_fill = 0, fill_value <> NULL) *)
+  (* layouts before and after NC_begins, for the data movement of enddef after redef *)
+  s_old_vars : list varlay; s_new_vars : list varlay;
+  s_old_begin_var : Z; s_new_begin_var : Z;
+  s_old_begin_rec : Z; s_new_begin_rec : Z;
+  s_old_recsize : Z; s_new_recsize : Z
+}.
+
+(* ------------------------------------------------------------------ what one rank passes *)
+Inductive vkind : Set := VFixed | VRecord | VScalar.
+
+(* a put/get/varn/vard request *)
+Record dreq : Set := mkReq {
+  d_err : Z;        (* error found by the dispatcher (sanity_check, check_start_count_stride, buftype), 0 = none; never fatal *)
+  d_sanity : bool;  (* that error came from sanity_check (varid, NC_ECHAR), i.e. before the variable's rank is looked at *)
+  d_vk : vkind;     (* kind of the variable addressed (meaningful when the varid is valid) *)
+  d_nonzero : bool; (* the request transfers at least one byte *)
+  d_drv_err : Z;    (* error found inside the driver (buftype decode, pack), 0 = none *)
+  d_contig : bool;  (* the file view of the request is contiguous (filetype == MPI_BYTE) *)
+  d_newrec : Z;     (* number of records the request implies (start[0]+count[0]) *)
+  d_num0 : bool;    (* varn: num == 0 *)
+  d_nreq : Z        (* varn: number of requests queued by igetput_varn *)
+}.
+
+(* wait_all / mput / mget *)
+Record wreq : Set := mkW {
+  w_err : Z;        (* mput/mget: error found by the dispatcher loop, 0 = none; never fatal *)
+  w_nw : Z;         (* number of queued write (sub)requests this call commits *)
+  w_nr : Z;         (* number of queued read (sub)requests this call commits *)
+  w_badid : bool;   (* wait_all: some request id is not pending (NC_EINVAL_REQUEST) *)
+  w_contig : bool;
+  w_newrec : Z      (* max_rec over the committed write requests *)
+}.
+
+(* fill_var_rec *)
+Record freq : Set := mkF {
+  f_global : bool;  (* varid == NC_GLOBAL *)
+  f_valid : bool;   (* 0 <= varid < nvars *)
+  f_isrec : bool;
+  f_nofill : bool;  (* variable not in fill mode and has no _FillValue *)
+  f_recno : Z;
+  f_same : bool     (* (varid, recno) equal to rank 0's *)
+}.
+
+(* collective metadata calls, create/open, _enddef:
+   e0 = error of this rank's own arguments that makes the dispatcher RETURN AT ONCE, before any
+        communication, also in safe mode (empty path in create/open, bad varid in del_att),
+   e1 = error of this rank's own arguments found by the dispatcher (goto err_check),
+   e2 = NC_EMULTIDEFINE_* code this rank raises when its arguments differ from rank 0's (0 if equal),
+   e3 = error found by the driver *)
+Record mreq : Set := mkM { m_e0 : Z; m_e1 : Z; m_e2 : Z; m_e3 : Z }.
+
+Inductive local : Set :=
+| LReq (r : dreq) | LWait (w : wreq) | LFill (f : freq) | LMeta (m : mreq) | LNone.
+
+Inductive akind : Set := AK_var | AK_var1 | AK_vara | AK_vars | AK_varm.
+Inductive metaapi : Set :=
+| M_def_dim | M_def_var | M_def_var_fill | M_set_fill | M_rename_dim | M_rename_var
+| M_rename_att | M_put_att | M_del_att | M_copy_att.
+
+Inductive api : Set :=
+| A_create | A_open | A_enddef | A__enddef | A_redef | A_begin_indep | A_end_indep
+| A_sync | A_sync_numrecs | A_close | A_abort
+| A_getput (isget : bool) (k : akind)
+| A_varn (isget : bool)
+| A_vard (isget : bool)
+| A_mgetput (isget : bool)
+| A_wait_all
+| A_fill_var_rec
+| A_meta (m : metaapi).
+
+Definition admissible (a : api) (l : local) : bool :=
+  match a, l with
+  | (A_create | A_open | A__enddef | A_meta _), LMeta _ => true
+  | (A_getput _ _ | A_varn _ | A_vard _), LReq _ => true
+  | (A_mgetput _ | A_wait_all | A_close), LWait _ => true   (* close: the requests still pending on this rank *)
+  | A_fill_var_rec, LFill _ => true
+  | (A_enddef | A_redef | A_begin_indep | A_end_indep | A_sync | A_sync_numrecs | A_close | A_abort), LNone => true
+  | _, _ => false
+  end.
+
+Definition fatal (e : Z) : bool :=
+  (e =? NC_EPERM) || (e =? NC_EINDEFINE) || (e =? NC_EINDEP) || (e =? NC_ENOTINDEP).
+
+(* well-formed arguments: error codes are <= 0, argument errors are not the "fatal" mode errors
+   (those are functions of the shared state), counts are >= 0 *)
+Definition wf_local (l : local) : bool :=
+  match l with
+  | LReq r => (d_err r <=? 0) && negb (fatal (d_err r)) && (d_drv_err r <=? 0) && (0 <=? d_nreq r)
+  | LWait w => (w_err w <=? 0) && negb (fatal (w_err w)) && (0 <=? w_nw w) && (0 <=? w_nr w)
+  | LFill _ => true
+  | LMeta m => (m_e0 m <=? 0) && (m_e1 m <=? 0) && (m_e2 m <=? 0) && (m_e3 m <=? 0)
+  | LNone => true
+  end.
+
+(* ------------------------------------------------------------------ results of the reductions *)
+Record gsum : Set := mkG {
+  g_min1 : Z;      (* MIN of the error codes entering the first safe-mode Allreduce of the call *)
+  g_min2 : Z;      (* ... the second (after the consistency comparison with rank 0) *)
+  g_min3 : Z;      (* ... the driver's *)
+  g_maxrec : Z;    (* MAX of the record counts (>= the current numrecs) *)
+  g_anyw : bool;   (* some rank commits write requests (do_io[1] > 0) *)
+  g_anyr : bool;   (* some rank commits read requests  (do_io[0] > 0) *)
+  g_anyerr : bool  (* some rank's extract_reqs failed     (do_io[2] != 0) *)
+}.
+
+Record contrib : Set := mkK { k_e1 : Z; k_e2 : Z; k_e3 : Z; k_rec : Z; k_w : bool; k_r : bool; k_err : bool }.
+
+(* mode errors raised by sanity_check / the dispatchers from the SHARED state *)
+Definition state_err (sh : shared) (isput : bool) : Z :=
+  if isput && s_rdonly sh then NC_EPERM
+  else match s_mode sh with MDefine => NC_EINDEFINE | MIndep => NC_EINDEP | MColl => 0 end.
+
+Definition is_rec (v : vkind) : bool := match v with VRecord => true | _ => false end.
+Definition is_scalar (v : vkind) : bool := match v with VScalar => true | _ => false end.
+
+(* the error the dispatcher of a put/get holds when it reaches err_check *)
+Definition disp_err (sh : shared) (isput : bool) (r : dreq) : Z :=
+  if state_err sh isput =? 0 then d_err r else state_err sh isput.
+
+(* varn: the dispatcher takes the put_var/get_var path for scalar variables *)
+Definition varn_scalar (r : dreq) : bool :=
+  negb (negb (d_err r =? 0) && d_sanity r) && negb (d_num0 r) && is_scalar (d_vk r).
+Definition varn_zero (r : dreq) : bool := negb (d_err r =? 0) || d_num0 r.
+Definition varn_nreq (r : dreq) : Z :=
+  if varn_zero r || negb (d_drv_err r =? 0) then 0 else d_nreq r.
+
+(* fill_var_rec: error of the dispatcher (dispatchers/variable.c) *)
+Definition fill_derr (sh : shared) (f : freq) : Z :=
+  if s_rdonly sh then NC_EPERM
+  else match s_mode sh with
+       | MDefine => NC_EINDEFINE
+       | _ => if f_global f then NC_EGLOBAL
+              else if negb (f_valid f) then NC_ENOTVAR
+              else if negb (f_isrec f) then NC_ENOTRECVAR
+              else match s_mode sh with MIndep => NC_EINDEP | _ => 0 end
+       end.
+(* ... of the driver (ncmpio_fill_var_rec), before the consistency block *)
+Definition fill_drv_err (f : freq) : Z :=
+  if negb (f_isrec f) then NC_ENOTRECVAR else if f_nofill f then NC_ENOTFILL else 0.
+(* ... after it *)
+Definition fill_drv_err2 (f : freq) : Z :=
+  if fill_drv_err f =? 0 then (if f_same f then 0 else NC_EMULTIDEFINE_FNC_ARGS) else fill_drv_err f.
+
+Definition contrib_of (sh : shared) (a : api) (l : local) : contrib :=
+  let nr := s_numrecs sh in
+  match a, l with
+  | A_getput isget _, LReq r =>
+      let e := disp_err sh (negb isget) r in
+      mkK e 0 0 (if negb isget && (e =? 0) && is_rec (d_vk r) && d_nonzero r && (d_drv_err r =? 0) then d_newrec r else nr)
+          false false false
+  | A_vard isget, LReq r =>
+      let e := disp_err sh (negb isget) r in
+      mkK e 0 0 (if negb isget && (e =? 0) && is_rec (d_vk r) && d_nonzero r && (d_drv_err r =? 0) then d_newrec r else nr)
+          false false false
+  | A_varn isget, LReq r =>
+      let e := disp_err sh (negb isget) r in
+      let q := if varn_scalar r then 0 else varn_nreq r in
+      mkK e 0 0 (if negb isget && (e =? 0) && is_rec (d_vk r) && d_nonzero r && negb (d_num0 r) && (d_drv_err r =? 0) then d_newrec r else nr)
+          (negb isget && (0 <? q)) (isget && (0 <? q)) false
+  | A_mgetput isget, LWait w =>
+      let e := if state_err sh (negb isget) =? 0 then w_err w else state_err sh (negb isget) in
+      mkK e 0 0 (if (e =? 0) && (0 <? w_nw w) then w_newrec w else nr)
+          ((e =? 0) && (0 <? w_nw w)) ((e =? 0) && (0 <? w_nr w)) false
+  | A_wait_all, LWait w =>
+      mkK 0 0 0 (if 0 <? w_nw w then w_newrec w else nr) (0 <? w_nw w) (0 <? w_nr w) (w_badid w)
+  | A_fill_var_rec, LFill f =>
+      mkK (fill_derr sh f) 0 (fill_drv_err2 f) (f_recno f + 1) false false false
+  | _, LMeta m => mkK (m_e1 m) (m_e2 m) (m_e3 m) nr false false false
+  | _, _ => mkK 0 0 0 nr false false false
+  end.
+
+Definition gsum_of (sh : shared) (ks : list contrib) : gsum :=
+  mkG (fold_right (fun k a => Z.min (k_e1 k) a) 0 ks)
+      (fold_right (fun k a => Z.min (k_e2 k) a) 0 ks)
+      (fold_right (fun k a => Z.min (k_e3 k) a) 0 ks)
+      (fold_right (fun k a => Z.max (k_rec k) a) (s_numrecs sh) ks)
+      (existsb k_w ks) (existsb k_r ks) (existsb k_err ks).
+
+(* ------------------------------------------------------------------ building blocks *)
+Inductive outcome : Set :=
+| Ret (rc : Z) (stored : bool)   (* the call returns rc; stored = this rank's transfer was carried out *)
+| Crash.                         (* undefined behaviour (out-of-bounds access with a bad varid) *)
+
+Fixpoint rep (n : nat) (t : trace) : trace := match n with O => [] | S k => t ++ rep k t end.
+
+(* ncmpio_getput_zero_req *)
+Definition zero_req (isget : bool) : trace :=
+  [(S_ncmpio_getput_zero_req_SV1, TFhColl);
+   (if isget then S_ncmpio_getput_zero_req_RA1 else S_ncmpio_getput_zero_req_WA1, TFhColl)].
+
+(* ncmpio_file_set_view on the collective handle *)
+Definition set_view (root contig : bool) : trace :=
+  [(if contig then S_ncmpio_file_set_view_SV1 else if root then S_ncmpio_file_set_view_SV2
+    else S_ncmpio_file_set_view_SV3, TFhColl)].
+
+(* ncmpio_read_write, collective *)
+Definition rw (isget : bool) : trace :=
+  [(if isget then S_ncmpio_read_write_RAA1 else S_ncmpio_read_write_WAA1, TFhColl)].
+
+(* ncmpio_write_numrecs when the caller's guard (numrecs grows or dirty) holds *)
+Definition write_numrecs (c : cfg) (sh : shared) (root indep : bool) : trace :=
+  if negb (c_hcoll c) && negb root then []
+  else if s_nrecvars sh =? 0 then []
+  else let fh := if indep then TFhSelf else TFhColl in
+       if negb root then [(S_ncmpio_write_numrecs_WAA1, fh)]
+       else if c_hcoll c then [(S_ncmpio_write_numrecs_WAA2, fh)] else [].
+
+Definition grow (sh : shared) (g : gsum) : bool := s_numrecs sh <? g_maxrec g.
+
+(* ncmpio_sync_numrecs called in independent data mode (forced dirty) *)
+Definition sync_numrecs_indep (c : cfg) (sh : shared) (root : bool) : trace :=
+  if s_nrecvars sh =? 0 then []
+  else if s_rdonly sh then []
+  else [(S_ncmpio_sync_numrecs_AR1, TComm)] ++ write_numrecs c sh root true ++
+       (if c_safe c then [(S_ncmpio_sync_numrecs_BC1, TComm)] else []).
+
+(* ncmpio_end_indep_data *)
+Definition end_indep (c : cfg) (sh : shared) (root : bool) : trace :=
+  match s_mode sh with
+  | MIndep => if negb (s_rdonly sh) && (0 <? s_nrecvars sh) then sync_numrecs_indep c sh root else []
+  | _ => []
+  end.
+
+(* ncmpio_put_var / ncmpio_get_var and put_varm / get_varm.  `zero` = NC_REQ_ZERO *)
+Definition nothing (r : dreq) : bool := negb (d_nonzero r) || negb (d_drv_err r =? 0).
+
+Definition getput_driver (c : cfg) (sh : shared) (g : gsum) (root isget zero : bool) (r : dreq) : trace :=
+  if zero then
+    (if negb isget && c_aggr c then set_view root true ++ rw false   (* put_varm(NULL): aggregation group *)
+     else zero_req isget)
+  else
+    set_view root (c_aggr c && negb isget || nothing r || d_contig r) ++ rw isget ++
+    (if negb isget && is_rec (d_vk r)
+     then [(S_put_varm_AR1, TComm)] ++ (if grow sh g then write_numrecs c sh root false else [])
+     else []).
+
+(* getput_vard *)
+Definition vard_driver (c : cfg) (sh : shared) (g : gsum) (root isget zero : bool) (r : dreq) : trace :=
+  if zero then zero_req isget
+  else
+    set_view root (nothing r || d_contig r) ++ rw isget ++
+    (if negb isget && is_rec (d_vk r)
+     then [(S_getput_vard_AR1, TComm)] ++ (if grow sh g then write_numrecs c sh root false else [])
+     else []).
+
+(* wait_getput (req_aggregation: zero_req when this rank has nothing, else one set_view + one collective transfer) *)
+Definition wait_getput (c : cfg) (sh : shared) (g : gsum) (root isget : bool) (n : Z) (contig : bool) : trace :=
+  (if negb isget && c_aggr c then set_view root true ++ rw false
+   else if n =? 0 then zero_req isget else set_view root contig ++ rw isget) ++
+  (if negb isget && grow sh g then write_numrecs c sh root false else []).
+
+(* req_commit in collective mode *)
+Definition req_commit (c : cfg) (sh : shared) (g : gsum) (root : bool) (nw nr : Z) (contig : bool) : trace :=
+  [(S_req_commit_AR1, TComm)] ++
+  (if g_anyerr g then []
+   else (if g_anyw g then wait_getput c sh g root false nw contig else []) ++
+        (if g_anyr g then wait_getput c sh g root true nr contig else [])).
+
+(* ncmpio_write_header (metadata change in data mode) *)
+Definition write_header (c : cfg) (sh : shared) (root : bool) : trace :=
+  let fh := match s_mode sh with MIndep => TFhSelf | _ => TFhColl end in
+  (if c_hcoll c
+   then rep (Z.to_nat (s_hdr_chunks sh)) [(if root then S_ncmpio_write_header_WAA1 else S_ncmpio_write_header_WAA2, fh)]
+   else []) ++
+  (if c_safe c then [(S_ncmpio_write_header_BC1, TComm)] else []).
+
+(* ncmpio_intra_node_aggr_init *)
+Definition aggr_init (c : cfg) (root : bool) : trace :=
+  if c_aggr c then
+    [(S_ncmpio_intra_node_aggr_init_GA1, TComm);
+     (if root then S_ncmpio_intra_node_aggr_init_GAV1 else S_ncmpio_intra_node_aggr_init_GAV2, TComm);
+     (S_ncmpio_intra_node_aggr_init_BC1, TComm)]
+  else [].
+
+(* ---- enddef ---- *)
+(* move_file_block: rounds of read_at_all / Allreduce / write_at_all / Allreduce *)
+Definition chunk_size (c : cfg) (nbytes : Z) : Z :=
+  let cs := nbytes / c_nprocs c + (if nbytes mod c_nprocs c =? 0 then 0 else 1) in
+  if (0 <? c_move_unit c) && (c_move_unit c <? cs) then c_move_unit c else cs.
+
+Fixpoint move_rounds (fuel : nat) (np cs nbytes : Z) : nat :=
+  match fuel with
+  | O => O
+  | S k => if nbytes <=? 0 then O
+           else if nbytes <? np * cs then 1%nat
+           else S (move_rounds k np cs (nbytes - cs * np))
+  end.
+
+Definition move_file_block (c : cfg) (nbytes : Z) : trace :=
+  let cs := chunk_size c nbytes in
+  [(S_move_file_block_SV1, TFhColl)] ++
+  rep (move_rounds (Z.to_nat nbytes + 1) (c_nprocs c) cs nbytes)
+      [(S_move_file_block_RAA1, TFhColl); (S_move_file_block_AR1, TComm);
+       (S_move_file_block_WAA1, TFhColl); (S_move_file_block_AR2, TComm)].
+
+(* move_fixed_vars: from the last variable to the first, fixed-size variables whose begin grew *)
+Fixpoint move_fixed (c : cfg) (old new : list varlay) : trace :=
+  match old, new with
+  | o :: old', n :: new' =>
+      move_fixed c old' new' ++
+      (if negb (vl_isrec o) && (vl_begin o <? vl_begin n) then move_file_block c (vl_len n) else [])
+  | _, _ => []
+  end.
+
+(* move_record_vars *)
+Definition move_record (c : cfg) (sh : shared) : trace :=
+  if s_new_recsize sh =? s_old_recsize sh then
+    (if s_new_recsize sh =? 0 then [] else move_file_block c (s_new_recsize sh * s_numrecs sh))
+  else rep (Z.to_nat (s_numrecs sh)) (move_file_block c (s_old_recsize sh)).
+
+Definition check_error (c : cfg) (s : site) : trace := if c_safe c then [(s, TComm)] else [].
+
+Definition write_NC (c : cfg) (sh : shared) (root : bool) : trace :=
+  (if c_hcoll c
+   then rep (Z.to_nat (s_hdr_chunks sh)) [(if root then S_write_NC_WAA1 else S_write_NC_WAA2, TFhColl)]
+   else []) ++
+  (if c_safe c then [(S_write_NC_BC1, TComm)] else []).
+
+Definition fill_new (sh : shared) : trace :=
+  if (0 <? s_nvars sh) && s_fill_new sh
+  then [(S_fillerup_aggregate_SV1, TFhColl); (S_fillerup_aggregate_WAA1, TFhColl); (S_fillerup_aggregate_SV2, TFhColl)]
+  else [].
+
+(* ncmpio__enddef *)
+Definition enddef_driver (c : cfg) (sh : shared) (root : bool) : trace :=
+  check_error c S_ncmpio__enddef_AR1 ++
+  (if c_safe c then [(S_NC_begins_BC1, TComm); (S_NC_begins_AR1, TComm)] else []) ++
+  check_error c S_ncmpio__enddef_AR2 ++
+  check_error c S_ncmpio__enddef_AR3 ++
+  (if negb (s_isnew sh) && (0 <? s_nvars sh) then
+     if s_old_begin_var sh <? s_new_begin_var sh then
+       move_record c sh ++ check_error c S_ncmpio__enddef_AR4 ++
+       move_fixed c (s_old_vars sh) (s_new_vars sh) ++ check_error c S_ncmpio__enddef_AR5
+     else if (s_old_begin_rec sh <? s_new_begin_rec sh) || (s_old_recsize sh <? s_new_recsize sh) then
+       move_record c sh ++ check_error c S_ncmpio__enddef_AR6
+     else []
+   else []) ++
+  write_NC c sh root ++ fill_new sh.
+
+(* ncmpio_close_files *)
+Definition close_files (c : cfg) (sh : shared) (unlink : bool) : trace :=
+  (if s_indep_open sh then [(S_ncmpio_close_files_FCLOSE1, TFhSelf)] else []) ++
+  [(S_ncmpio_close_files_FCLOSE2, TFhColl)] ++
+  (if unlink then [(S_ncmpio_close_files_BAR1, TComm)] else []).
+
+(* hdr_fetch, once per chunk *)
+Definition hdr_fetch (c : cfg) (root : bool) : trace :=
+  (if c_hcoll c then [(if root then S_hdr_fetch_RAA1 else S_hdr_fetch_RAA2, TFhColl)] else []) ++
+  (if c_safe c then [(S_hdr_fetch_BC1, TComm)] else []) ++
+  [(S_hdr_fetch_BC2, TComm)].
+
+(* ---- safe-mode consistency blocks of the collective metadata calls ---- *)
+Record metadesc : Set := mkMd {
+  md_ar1 : option site;      (* dispatcher: Allreduce of the argument-check error *)
+  md_bcs : list site;        (* dispatcher: broadcasts of rank 0's arguments *)
+  md_ar2 : option site;      (* dispatcher: Allreduce after the comparison *)
+  md_dbcs : list site;       (* driver: broadcasts *)
+  md_dar : option site;      (* driver: Allreduce *)
+  md_keep_own : bool;        (* driver returns its own error when it has one, the minimum otherwise *)
+  md_post : list site;       (* driver, after its Allreduce found no error: further safe-mode Allreduces of nested calls *)
+  md_header : bool           (* in data mode the call rewrites the header (ncmpio_write_header) *)
+}.
+
+Definition metadesc_of (m : metaapi) : metadesc :=
+  match m with
+  | M_def_dim => mkMd (Some S_ncmpi_def_dim_AR1) [S_ncmpi_def_dim_BC1; S_ncmpi_def_dim_BC2; S_ncmpi_def_dim_BC3]
+                      (Some S_ncmpi_def_dim_AR2) [] None false [] false
+  | M_def_var => mkMd (Some S_ncmpi_def_var_AR1)
+                      [S_ncmpi_def_var_BC1; S_ncmpi_def_var_BC2; S_ncmpi_def_var_BC3; S_ncmpi_def_var_BC4; S_ncmpi_def_var_BC5]
+                      (Some S_ncmpi_def_var_AR2) [] (Some S_ncmpio_def_var_AR1) false [] false
+  | M_def_var_fill => mkMd (Some S_ncmpi_def_var_fill_AR1) [] None
+                      [S_ncmpio_def_var_fill_BC1; S_ncmpio_def_var_fill_BC2] (Some S_ncmpio_def_var_fill_AR1) true
+                      [S_ncmpio_put_att_AR1]   (* a fill value is given: ncmpio_put_att of _FillValue *) false
+  | M_set_fill => mkMd None [] None [S_ncmpio_set_fill_BC1] (Some S_ncmpio_set_fill_AR1) true [] false
+  | M_rename_dim => mkMd (Some S_ncmpi_rename_dim_AR1) [S_ncmpi_rename_dim_BC1; S_ncmpi_rename_dim_BC2; S_ncmpi_rename_dim_BC3]
+                      (Some S_ncmpi_rename_dim_AR2) [] (Some S_ncmpio_rename_dim_AR1) false [] true
+  | M_rename_var => mkMd (Some S_ncmpi_rename_var_AR1) [S_ncmpi_rename_var_BC1; S_ncmpi_rename_var_BC2; S_ncmpi_rename_var_BC3]
+                      (Some S_ncmpi_rename_var_AR2) [] (Some S_ncmpio_rename_var_AR1) false [] true
+  | M_rename_att => mkMd (Some S_ncmpi_rename_att_AR1)
+                      [S_ncmpi_rename_att_BC1; S_ncmpi_rename_att_BC2; S_ncmpi_rename_att_BC3; S_ncmpi_rename_att_BC4; S_ncmpi_rename_att_BC5]
+                      (Some S_ncmpi_rename_att_AR2) [] (Some S_ncmpio_rename_att_AR1) false [] true
+  | M_put_att => mkMd (Some S_check_consistency_put_AR1)
+                      [S_check_consistency_put_BC1; S_check_consistency_put_BC2; S_check_consistency_put_BC3;
+                       S_check_consistency_put_BC4; S_check_consistency_put_BC5; S_check_consistency_put_BC6]
+                      (Some S_check_consistency_put_AR2) [] (Some S_ncmpio_put_att_AR1) false [] true
+  | M_del_att => mkMd (Some S_ncmpi_del_att_AR1) [S_ncmpi_del_att_BC1; S_ncmpi_del_att_BC2; S_ncmpi_del_att_BC3]
+                      (Some S_ncmpi_del_att_AR2) [] (Some S_ncmpio_del_att_AR1) false [] false
+  | M_copy_att => mkMd (Some S_ncmpi_copy_att_AR1) [S_ncmpi_copy_att_BC1; S_ncmpi_copy_att_BC2; S_ncmpi_copy_att_BC3]
+                      (Some S_ncmpi_copy_att_AR2) [] (Some S_ncmpio_copy_att_AR1) false [] true
+  end.
+
+Definition osite (o : option site) : trace := match o with Some s => [(s, TComm)] | None => [] end.
+Definition csites (l : list site) : trace := map (fun s => (s, TComm)) l.
+Definition first_err (a b : Z) : Z := if a =? 0 then b else a.
+
+(* one collective metadata call *)
+Definition meta_exec (c : cfg) (sh : shared) (g : gsum) (root : bool) (md : metadesc) (m : mreq) : trace * outcome :=
+  let hdr := match s_mode sh with MDefine => [] | _ => if md_header md then write_header c sh root else [] end in
+  if negb (m_e0 m =? 0) then ([], Ret (m_e0 m) false) else
+  if c_safe c then
+    let t1 := osite (md_ar1 md) in
+    if negb (g_min1 g =? 0) && (match md_ar1 md with Some _ => true | None => false end) then (t1, Ret (g_min1 g) false)
+    else
+      let t2 := t1 ++ csites (md_bcs md) ++ osite (md_ar2 md) in
+      if negb (g_min2 g =? 0) && (match md_ar2 md with Some _ => true | None => false end) then (t2, Ret (g_min2 g) false)
+      else
+        (* driver; when the dispatcher has no second Allreduce the comparison error is the driver's *)
+        let own := match md_ar2 md with Some _ => m_e3 m | None => first_err (m_e3 m) (m_e2 m) end in
+        let gm := match md_ar2 md with Some _ => g_min3 g | None => Z.min (g_min3 g) (g_min2 g) end in
+        let t3 := t2 ++ csites (md_dbcs md) ++ osite (md_dar md) in
+        match md_dar md with
+        | Some _ =>
+            if gm =? 0 then (t3 ++ (if s_argflag sh then csites (md_post md) else []) ++ hdr, Ret 0 true)
+            else (t3, Ret (if md_keep_own md then first_err own gm else gm) false)
+        | None => if own =? 0 then (t3 ++ hdr, Ret 0 true) else (t3, Ret own false)
+        end
+  else
+    let e := first_err (m_e1 m) (m_e3 m) in
+    if e =? 0 then (hdr, Ret 0 true) else ([], Ret e false).
+
+(* ------------------------------------------------------------------ one API call on one rank *)
+Definition stop (t : trace) (rc : Z) : trace * outcome := (t, Ret rc false).
+
+Definition exec (c : cfg) (sh : shared) (a : api) (g : gsum) (root : bool) (l : local) : trace * outcome :=
+  if negb (multi c) then ([], Ret 0 true) else
+  match a, l with
+  (* ---- blocking collective put/get ---- *)
+  | A_getput isget _, LReq r =>
+      let e := disp_err sh (negb isget) r in
+      if c_safe c then
+        if g_min1 g =? 0
+        then ([(S_allreduce_error_AR1, TComm)] ++ getput_driver c sh g root isget false r,
+              Ret (d_drv_err r) ((d_drv_err r =? 0) && d_nonzero r))
+        else stop [(S_allreduce_error_AR1, TComm)] (g_min1 g)
+      else if fatal e then stop [] e
+      else if e =? 0
+        then (getput_driver c sh g root isget false r, Ret (d_drv_err r) ((d_drv_err r =? 0) && d_nonzero r))
+        else (getput_driver c sh g root isget true r, Ret e false)
+  | A_vard isget, LReq r =>
+      let e := disp_err sh (negb isget) r in
+      if c_safe c then
+        if g_min1 g =? 0
+        then ([(S_allreduce_error_AR1, TComm)] ++ vard_driver c sh g root isget false r,
+              Ret (d_drv_err r) ((d_drv_err r =? 0) && d_nonzero r))
+        else stop [(S_allreduce_error_AR1, TComm)] (g_min1 g)
+      else if fatal e then stop [] e
+      else if e =? 0
+        then (vard_driver c sh g root isget false r, Ret (d_drv_err r) ((d_drv_err r =? 0) && d_nonzero r))
+        else (vard_driver c sh g root isget true r, Ret e false)
+  | A_varn isget, LReq r =>
+      let e := disp_err sh (negb isget) r in
+      let body (zero : bool) (rc : Z) : trace * outcome :=
+        if varn_scalar r
+        then (getput_driver c sh g root isget zero r,
+              Ret (first_err rc (d_drv_err r)) ((rc =? 0) && (d_drv_err r =? 0) && d_nonzero r))
+        else (req_commit c sh g root (if isget then 0 else varn_nreq r) (if isget then varn_nreq r else 0) (d_contig r),
+              Ret (first_err rc (d_drv_err r)) ((rc =? 0) && (d_drv_err r =? 0) && (0 <? varn_nreq r) && negb (g_anyerr g))) in
+      if c_safe c then
+        if g_min1 g =? 0
+        then let (t, o) := body (d_num0 r) 0 in ([(S_allreduce_error_AR1, TComm)] ++ t, o)
+        else stop [(S_allreduce_error_AR1, TComm)] (g_min1 g)
+      else if fatal e then stop [] e
+      else body (varn_zero r) e
+  (* ---- mput / mget, wait_all ---- *)
+  | A_mgetput isget, LWait w =>
+      let e := if state_err sh (negb isget) =? 0 then w_err w else state_err sh (negb isget) in
+      if c_safe c then
+        if g_min1 g =? 0
+        then ([(S_allreduce_error_AR1, TComm)] ++ req_commit c sh g root (w_nw w) (w_nr w) (w_contig w),
+              Ret 0 (negb (g_anyerr g)))
+        else stop [(S_allreduce_error_AR1, TComm)] (g_min1 g)
+      else if fatal e then stop [] e
+      else if e =? 0 then (req_commit c sh g root (w_nw w) (w_nr w) (w_contig w), Ret 0 (negb (g_anyerr g)))
+      else (req_commit c sh g root 0 0 true, Ret e false)
+  | A_wait_all, LWait w =>
+      match s_mode sh with
+      | MDefine => stop [] NC_EINDEFINE
+      | MIndep => stop [] NC_EINDEP
+      | MColl => (req_commit c sh g root (w_nw w) (w_nr w) (w_contig w),
+                  Ret (if w_badid w then NC_EINVAL_REQUEST else 0) (negb (g_anyerr g)))
+      end
+  (* ---- fill_var_rec ---- *)
+  | A_fill_var_rec, LFill f =>
+      let body : trace :=
+        [(S_fill_var_rec_SV1, TFhColl); (S_fill_var_rec_WAA1, TFhColl); (S_fill_var_rec_AR1, TComm)] ++
+        (if grow sh g then write_numrecs c sh root false else []) in
+      if c_safe c then
+        if g_min1 g =? 0 then
+          let t := [(S_ncmpi_fill_var_rec_AR1, TComm); (S_ncmpio_fill_var_rec_BC1, TComm);
+                    (S_ncmpio_fill_var_rec_BC2, TComm); (S_ncmpio_fill_var_rec_AR1, TComm)] in
+          if g_min3 g =? 0 then (t ++ body, Ret 0 true)
+          else (t, Ret (first_err (fill_drv_err2 f) (g_min3 g)) false)   (* keeps its own error *)
+        else stop [(S_ncmpi_fill_var_rec_AR1, TComm)] (g_min1 g)
+      else
+        (* without safe mode the dispatcher's error is NOT tested before the driver is entered *)
+        if f_global f || negb (f_valid f) then ([], Crash)
+        else if fill_drv_err f =? 0 then (body, Ret 0 true) else stop [] (fill_drv_err f)
+  (* ---- collective metadata calls ---- *)
+  | A_meta m, LMeta q => meta_exec c sh g root (metadesc_of m) q
+  (* ---- _enddef: argument check, then as enddef ---- *)
+  | A__enddef, LMeta q =>
+      match s_mode sh with
+      | MDefine =>
+          if c_safe c then
+            if g_min1 g =? 0 then
+              let t := [(S_ncmpi__enddef_AR1, TComm); (S_ncmpi__enddef_BC1, TComm); (S_ncmpi__enddef_AR2, TComm)] in
+              if g_min2 g =? 0 then (t ++ enddef_driver c sh root, Ret 0 true) else stop t (g_min2 g)
+            else stop [(S_ncmpi__enddef_AR1, TComm)] (g_min1 g)
+          else if m_e1 q =? 0 then (enddef_driver c sh root, Ret 0 true) else stop [] (m_e1 q)
+      | _ => if c_safe c then stop [(S_ncmpi__enddef_AR1, TComm)] NC_ENOTINDEFINE else stop [] NC_ENOTINDEFINE
+      end
+  | A_enddef, LNone =>
+      match s_mode sh with
+      | MDefine => ((if c_safe c then [(S_ncmpi_enddef_AR1, TComm)] else []) ++ enddef_driver c sh root, Ret 0 true)
+      | _ => if c_safe c then stop [(S_ncmpi_enddef_AR1, TComm)] NC_ENOTINDEFINE else stop [] NC_ENOTINDEFINE
+      end
+  (* ---- create / open: e0 = error found before any communication (empty path) ---- *)
+  | A_create, LMeta q =>
+      if negb (m_e0 q =? 0) then stop [] (m_e0 q) else
+      let t0 := [(S_ncmpi_create_BC1, TComm)] ++ (if c_safe c then [(S_ncmpi_create_AR1, TComm)] else []) ++
+                (if c_dup c then [(S_ncmpi_create_DUP1, TComm)] else []) in
+      let st := if c_safe c then g_min2 g else m_e2 q in
+      if s_noclobber sh then
+        let t1 := t0 ++ [(S_ncmpio_create_BC1, TComm)] in
+        if s_exists_err sh
+        then stop (t1 ++ (if c_dup c then [(S_ncmpi_create_CFREE1, TComm)] else [])) (first_err st NC_EEXIST)
+        else (t1 ++ [(S_ncmpio_create_FOPEN1, TComm)] ++ aggr_init c root, Ret st true)
+      else (t0 ++ [(S_ncmpio_create_BC2, TComm); (S_ncmpio_create_FOPEN1, TComm)] ++ aggr_init c root, Ret st true)
+  | A_open, LMeta q =>
+      if negb (m_e0 q =? 0) then stop [] (m_e0 q) else
+      let t0 := [(S_ncmpi_open_BC1, TComm)] in
+      if s_exists_err sh then stop t0 NC_ENOTNC else
+      let st := if c_safe c then g_min2 g else m_e2 q in
+      (t0 ++ (if c_safe c then [(S_ncmpi_open_AR1, TComm)] else []) ++
+       (if c_dup c then [(S_ncmpi_open_DUP1, TComm)] else []) ++
+       [(S_ncmpio_open_FOPEN1, TComm)] ++ rep (Z.to_nat (s_hdr_chunks sh)) (hdr_fetch c root) ++ aggr_init c root,
+       Ret st true)
+  (* ---- calls without per-rank arguments ---- *)
+  | A_redef, LNone =>
+      if s_rdonly sh then stop [] NC_EPERM else
+      match s_mode sh with
+      | MDefine => stop [] NC_EINDEFINE
+      | _ => (end_indep c sh root, Ret 0 true)
+      end
+  | A_begin_indep, LNone =>
+      match s_mode sh with
+      | MDefine => stop [] NC_EINDEFINE
+      | MIndep => ([], Ret 0 true)
+      | MColl => ((if s_indep_open sh then [] else [(S_ncmpio_begin_indep_data_FOPEN1, TSelf)]), Ret 0 true)
+      end
+  | A_end_indep, LNone =>
+      match s_mode sh with
+      | MDefine => stop [] NC_EINDEFINE
+      | _ => (end_indep c sh root, Ret 0 true)
+      end
+  | A_sync_numrecs, LNone =>
+      match s_mode sh with
+      | MDefine => stop [] NC_EINDEFINE
+      | MColl => if (0 <? s_nrecvars sh) && s_rdonly sh then stop [] NC_EPERM else ([], Ret 0 true)
+      | MIndep => if (0 <? s_nrecvars sh) && s_rdonly sh then stop [] NC_EPERM else (sync_numrecs_indep c sh root, Ret 0 true)
+      end
+  | A_sync, LNone =>
+      match s_mode sh with
+      | MDefine => stop [] NC_EINDEFINE
+      | m => if s_rdonly sh then ([], Ret 0 true) else
+             ((match m with MIndep => if 0 <? s_nrecvars sh then sync_numrecs_indep c sh root else [] | _ => [] end) ++
+              (if s_indep_open sh then [(S_ncmpio_file_sync_FSYNC1, TFhSelf)] else []) ++
+              [(S_ncmpio_file_sync_FSYNC2, TFhColl)], Ret 0 true)
+      end
+  | A_close, LWait w =>     (* pending requests are cancelled (not collective); the rank gets NC_EPENDING *)
+      ((match s_mode sh with MDefine => enddef_driver c sh root | _ => [] end) ++
+       (if negb (s_rdonly sh) then end_indep c sh root else []) ++
+       close_files c sh false ++
+       (if negb (s_rdonly sh) && (s_nvars sh =? 0) then [(S_ncmpio_close_BAR1, TComm); (S_ncmpio_close_BAR2, TComm)] else []) ++
+       (if c_dup c then [(S_ncmpi_close_CFREE1, TComm)] else []),
+       Ret (if 0 <? w_nw w + w_nr w then NC_EPENDING else 0) true)
+  | A_close, LNone =>
+      ((match s_mode sh with MDefine => enddef_driver c sh root | _ => [] end) ++
+       (if negb (s_rdonly sh) then end_indep c sh root else []) ++
+       close_files c sh false ++
+       (if negb (s_rdonly sh) && (s_nvars sh =? 0) then [(S_ncmpio_close_BAR1, TComm); (S_ncmpio_close_BAR2, TComm)] else []) ++
+       (if c_dup c then [(S_ncmpi_close_CFREE1, TComm)] else []), Ret 0 true)
+  | A_abort, LNone =>
+      ((if s_isnew sh then [] else if negb (s_rdonly sh) then end_indep c sh root else []) ++
+       close_files c sh (s_isnew sh) ++
+       (if c_dup c then [(S_ncmpi_abort_CFREE1, TComm)] else []), Ret 0 true)
+  | _, _ => ([], Ret 0 false)   (* not admissible *)
+  end.
+
+Definition ctrace (c : cfg) (sh : shared) (a : api) (g : gsum) (root : bool) (l : local) : trace :=
+  fst (exec c sh a g root l).
+Definition cret (c : cfg) (sh : shared) (a : api) (g : gsum) (root : bool) (l : local) : outcome :=
+  snd (exec c sh a g root l).
+
+(* ------------------------------------------------------------------ all ranks of one call *)
+Definition gsum_ranks (sh : shared) (a : api) (ls : list local) : gsum :=
+  gsum_of sh (map (contrib_of sh a) ls).
+
+Fixpoint run_from (c : cfg) (sh : shared) (a : api) (g : gsum) (i : nat) (ls : list local) : list (trace * outcome) :=
+  match ls with
+  | [] => []
+  | l :: ls' => exec c sh a g (Nat.eqb i 0) l :: run_from c sh a g (S i) ls'
+  end.
+
+(* rank i passes (nth i ls); rank 0 is the root *)
+Definition run (c : cfg) (sh : shared) (a : api) (ls : list local) : list (trace * outcome) :=
+  run_from c sh a (gsum_ranks sh a ls) 0 ls.
+
+(* the ranks' observable sequences agree *)
+Fixpoint all_equal {A : Type} (eqb : A -> A -> bool) (l : list A) : bool :=
+  match l with
+  | x :: ((y :: _) as t) => eqb x y && all_equal eqb t
+  | _ => true
+  end.
+
+(* decidable equality of observable operations; the model's verdict on one call *)
+Scheme Equality for ckind.
+Scheme Equality for target.
+Scheme Equality for mpicall.
+Definition nop_eqb (x y : ckind * target) : bool := ckind_beq (fst x) (fst y) && target_beq (snd x) (snd y).
+Definition sop_eqb (x y : mpicall * target) : bool := mpicall_beq (fst x) (fst y) && target_beq (snd x) (snd y).
+Fixpoint list_eqb {A : Type} (eqb : A -> A -> bool) (a b : list A) : bool :=
+  match a, b with
+  | [], [] => true
+  | x :: a', y :: b' => eqb x y && list_eqb eqb a' b'
+  | _, _ => false
+  end.
+Definition traces_match (ts : list trace) : bool := all_equal (list_eqb nop_eqb) (map norm ts).
+Definition traces_match_strict (ts : list trace) : bool := all_equal (list_eqb sop_eqb) (map strict ts).
+Definition run_matches (c : cfg) (sh : shared) (a : api) (ls : list local) : bool :=
+  traces_match (map fst (run c sh a ls)).
+
+(* ------------------------------------------------------------------ site enumeration check *)
+(* order on (function, call, ordinal) used to compare the model's site set with the generated one *)
+Fixpoint str_leb (a b : string) : bool :=
+  match a, b with
+  | EmptyString, _ => true
+  | String _ _, EmptyString => false
+  | String x a', String y b' =>
+      let nx := Ascii.nat_of_ascii x in let ny := Ascii.nat_of_ascii y in
+      if Nat.ltb nx ny then true else if Nat.ltb ny nx then false else str_leb a' b'
+  end.
+Definition str_eqb (a b : string) : bool := str_leb a b && str_leb b a.
+Definition site3_leb (x y : string * string * nat) : bool :=
+  let '(f1, c1, n1) := x in let '(f2, c2, n2) := y in
+  if str_eqb f1 f2 then (if str_eqb c1 c2 then Nat.leb n1 n2 else str_leb c1 c2) else str_leb f1 f2.
+Fixpoint ins3 (x : string * string * nat) (l : list (string * string * nat)) :=
+  match l with [] => [x] | y :: t => if site3_leb x y then x :: l else y :: ins3 x t end.
+Definition sort3 (l : list (string * string * nat)) := fold_right ins3 [] l.
+
+Definition model_sites : list (string * string * nat) := sort3 (map site_info all_sites).
+
+(* ------------------------------------------------------------------ what must agree across ranks *)
+(* `sync_class c sh a l`: the only feature of a rank's own arguments that the sequence of
+   cross-rank collectives of the call depends on (Proofs_Collective.norm_class).  Ranks of the
+   same class execute the same observable sequence; the classes are
+     put (var/var1/vara/vars/varm/vard): 1 = reaches the numrecs Allreduce of put_varm / getput_vard
+         (no dispatcher-level error and the variable is a record variable), 0 = does not;
+     varn: 1 = scalar variable (dispatcher takes the put_var/get_var path), 0 = varn path (wait);
+     fill_var_rec without safe mode: 1 = enters fill_var_rec, 0 = returns (or crashes) before;
+     metadata calls / _enddef / create / open: 1 = returns before the first collective while the
+         other ranks have collectives to execute, 0 = otherwise;
+     everything else: 0. *)
+Definition meta_hdr_global (c : cfg) (sh : shared) (md : metadesc) : bool :=
+  md_header md && (match s_mode sh with MColl => true | _ => false end) && c_hcoll c.
+
+Definition sync_class (c : cfg) (sh : shared) (a : api) (l : local) : nat :=
+  match a, l with
+  | A_getput isget _, LReq r | A_vard isget, LReq r =>
+      if negb isget && is_rec (d_vk r) && (c_safe c || (disp_err sh true r =? 0)) then 1%nat else 0%nat
+  | A_varn _, LReq r => if varn_scalar r then 1%nat else 0%nat
+  | A_fill_var_rec, LFill f =>
+      if c_safe c then 0%nat
+      else if f_global f || negb (f_valid f) || negb (fill_drv_err f =? 0) then 0%nat else 1%nat
+  | A_meta m, LMeta q =>
+      let early := negb (m_e0 q =? 0) || (negb (c_safe c) && negb (first_err (m_e1 q) (m_e3 q) =? 0)) in
+      if early && (c_safe c || meta_hdr_global c sh (metadesc_of m)) then 1%nat else 0%nat
+  | A__enddef, LMeta q =>
+      if negb (c_safe c) && (match s_mode sh with MDefine => true | _ => false end) && negb (m_e1 q =? 0) then 1%nat else 0%nat
+  | (A_create | A_open), LMeta q => if m_e0 q =? 0 then 0%nat else 1%nat
+  | _, _ => 0%nat
+  end.
